@@ -36,6 +36,12 @@ struct IniGen {
     std::map<std::string, std::string> cur;                       // value in effect per full name
     std::vector<std::string> names;                               // defined full names, in order
     std::string section;
+    bool longnames = false;       // this document has section names and keys of several hundred characters (prefixed keys around 1024)
+    std::string name_() {
+        std::string r = ident(s);
+        if (longnames && s.boolean()) { size_t L = s.chance(1, 4) ? (size_t)s.range(1015, 1035) : (size_t)s.range(490, 530); while (r.size() < L) r += ident(s, 6); r.resize(L); }
+        return r;
+    }
     int nrefs = 0, nsections = 0, nnested = 0, nenv = 0, nundef = 0, nmany = 0, manyctr = 0;
     bool has_undef = false;                                       // the value being generated contains an undefined reference
     std::map<size_t, std::string> alt;                            // entry index -> the other acceptable value (undefined references dropped)
@@ -91,9 +97,9 @@ struct IniGen {
             else if (k == 1) doc += pad(s) + "#" + text_piece() + "${x} = y\n";
             else if (k == 2) {
                 if (s.chance(1, 5)) { doc += pad(s) + "[" + pad(s) + "]" + pad(s) + "\n"; section.clear(); }
-                else { std::string nm = ident(s); if (s.chance(1, 5)) nm += " " + ident(s, 3); doc += pad(s) + "[" + pad(s) + nm + pad(s) + "]" + pad(s) + "\n"; section = nm; nsections++; define(nm + ".", nm); }
+                else { std::string nm = name_(); if (s.chance(1, 5)) nm += " " + ident(s, 3); doc += pad(s) + "[" + pad(s) + nm + pad(s) + "]" + pad(s) + "\n"; section = nm; nsections++; define(nm + ".", nm); }
             } else if (k == 3) {
-                std::string key = ident(s);
+                std::string key = name_();
                 if (s.chance(1, 6) && !names.empty()) { const std::string &f = names[s.range(0, (long)names.size() - 1)]; size_t dot = f.rfind('.'); std::string base = dot == std::string::npos ? f : f.substr(dot + 1); if (!base.empty()) key = base; }   // redefinition
                 has_undef = false;
                 auto v = gen_value();
@@ -143,6 +149,8 @@ Job gen_ini(Src &s, Ctx &c, bool *nontriv) {
     char sep = s.boolean() ? '=' : ':';
     bool usefile = s.chance(1, 3);
     IniGen g(s, sep);
+    g.longnames = s.chance(1, 10);
+    if (g.longnames) c.tag("ini_with_names_of_hundreds_of_characters");
     std::string doc;
     int nincl = 0;
     if (!usefile) doc = g.lines(c.tier ? 60 : 30, true);
